@@ -114,7 +114,7 @@ func decodeTotal(c *core.Case, family string, t reflect.Type, in []byte) (err er
 		return err, out
 	}
 	c.Count("calls.Scan", 1)
-	if err == nil {
+	if err == nil && family != "bare-target" { // (a bare value is not a message: nothing to enumerate)
 		// Scan must enumerate exactly the top-level fields of an input Unmarshal accepts
 		ref, ok := pwire.Fields(in)
 		same := ok && serr == nil && len(ref) == len(got)
@@ -139,6 +139,9 @@ func decodeTotal(c *core.Case, family string, t reflect.Type, in []byte) (err er
 }
 
 func pickType(c *core.Case) reflect.Type {
+	if c.Index%13 == 5 { // declared recursive and mutually recursive message types
+		return ptypes.RecLibrary[c.Rng.Intn(len(ptypes.RecLibrary))]
+	}
 	cfg := ptypes.DefaultCfg
 	cfg.BigNumbers = c.Index%5 == 0
 	cfg.MaxFields = 7
@@ -259,16 +262,50 @@ func runRandom(c *core.Case) {
 	}
 }
 
+// bare targets: Unmarshal into a value that is not a message (bytes, string, byte array, number,
+// custom types): no struct decoder has validated the window before the type's own decoder runs.
+var bareTargets = []reflect.Type{
+	reflect.TypeOf([]byte(nil)), reflect.TypeOf(""), reflect.TypeOf([4]byte{}), reflect.TypeOf([16]byte{}), reflect.TypeOf(int64(0)), reflect.TypeOf(uint32(0)), reflect.TypeOf(false),
+	reflect.TypeOf(float64(0)), reflect.TypeOf(float32(0)), ptypes.TMsg, ptypes.TGogo, ptypes.TRaw, reflect.TypeOf(int32(0)), reflect.TypeOf(uint64(0)), reflect.TypeOf(int(0)),
+}
+
+func runBare(c *core.Case) {
+	r := c.Rng
+	t := bareTargets[c.Index%len(bareTargets)]
+	if r.Chance(1, 4) {
+		t = reflect.PointerTo(t)
+	}
+	c.Journal("bare-target")
+	var in []byte
+	switch r.Intn(5) {
+	case 0: // a length far beyond the input
+		in = protowire.AppendVarint(nil, []uint64{1 << 20, 1 << 26, 1<<31 - 1, 1 << 32, 1 << 40, 1 << 62, 1<<63 - 1, 1 << 63, ^uint64(0)}[r.Intn(9)])
+		in = append(in, r.Bytes(r.Intn(5))...)
+	case 1: // longer than a byte array target
+		n := r.Range(0, 40)
+		in = protowire.AppendBytes(nil, r.Bytes(n))
+	case 2:
+		in = r.Bytes(r.Intn(24))
+	case 3:
+		in = protowire.AppendVarint(nil, r.Uint64B())
+	default:
+		in = protowire.AppendBytes(protowire.AppendTag(nil, protowire.Number(r.Range(1, 3)), protowire.BytesType), r.Bytes(r.Intn(12)))
+	}
+	decodeTotal(c, "bare-target", t, in)
+	c.Distinct(core.Mix(core.HashString(t.String()), core.HashBytes(in)), true)
+}
+
 func init() {
 	core.Register(&core.Monitor{
 		Prop:    "C07",
-		Rule:    "Target types and valid encodings come from the C03 generator. prefixes: every prefix of a valid encoding (cut at every byte, up to 400); mutated: 12 hostile mutations per encoding (truncation, bit flips, lengths/varints replaced by 0, len+-1, 2^31-1, 2^32-1, 2^63, 2^64-1, over-long varints, wire-type swaps, inserted noise, deleted spans, duplicated fields); length-bomb: every declared field with declared lengths from 2^20 to 2^64-1 and 3 available bytes; random: raw bytes and tag-shaped noise. Each input goes through Unmarshal (allocation measured with cumulative TotalAlloc on the single-goroutine worker; bound 64 KiB + (8*largest reachable element + 512) bytes per input byte), Scan/Parse and the RawValue accessors (compared with protowire); a panic or process death is a violation; when Unmarshal accepts, Scan must enumerate the same (number, wire type, bytes) list as the reference scanner. unknown-fields: well-formed fields with undeclared numbers (wire types 0,1,2,5, also nested messages) inserted at every/half/fifth of the field boundaries of the message, recursively inside embedded messages and map entries: Unmarshal must accept and decode to the same value. Distinct by (type, input).",
+		Rule:    "Target types and valid encodings come from the C03 generator. prefixes: every prefix of a valid encoding (cut at every byte, up to 400); mutated: 12 hostile mutations per encoding (truncation, bit flips, lengths/varints replaced by 0, len+-1, 2^31-1, 2^32-1, 2^63, 2^64-1, over-long varints, wire-type swaps, inserted noise, deleted spans, duplicated fields); length-bomb: every declared field with declared lengths from 2^20 to 2^64-1 and 3 available bytes; random: raw bytes and tag-shaped noise. bare-targets: Unmarshal into top-level values that are not messages ([]byte, string, byte arrays, numbers, custom types; also through a pointer) of huge declared lengths, over-long payloads and noise. Every thirteenth type is a declared recursive or mutually recursive message type. Each input goes through Unmarshal (allocation measured with cumulative TotalAlloc on the single-goroutine worker; bound 64 KiB + (8*largest reachable element + 512) bytes per input byte), Scan/Parse and the RawValue accessors (compared with protowire); a panic or process death is a violation; when Unmarshal accepts, Scan must enumerate the same (number, wire type, bytes) list as the reference scanner. unknown-fields: well-formed fields with undeclared numbers (wire types 0,1,2,5, also nested messages) inserted at every/half/fifth of the field boundaries of the message, recursively inside embedded messages and map entries: Unmarshal must accept and decode to the same value. Distinct by (type, input).",
 		Trusted: []string{"google.golang.org/protobuf/encoding/protowire v1.25.0 as reference scanner", "runtime.MemStats.TotalAlloc for the allocation bound", "the field-numbering replica in gen/pwire.FieldsOf"},
 		Subs: []core.Sub{
 			{Name: "prefixes", N: core.Const(1500, 60000), Run: runPrefixes},
 			{Name: "mutated", N: core.Const(6000, 300000), Run: runMutated},
 			{Name: "length-bomb", N: core.Const(600, 10000), Run: runBombs},
 			{Name: "unknown-fields", N: core.Const(6000, 200000), Run: runUnknown},
+			{Name: "bare-targets", N: core.Const(6000, 200000), Run: runBare},
 			{Name: "random", N: core.Const(3000, 100000), Run: runRandom},
 		},
 	})
